@@ -9,3 +9,8 @@ import DSymVerif.Props.C13
 #print axioms DSymVerif.C13.intersection_spec
 #print axioms DSymVerif.C13.core_spec
 #print axioms DSymVerif.C13.stabilizer_gens_fix_base
+#print axioms DSymVerif.C13.stabilizer_generates
+#print axioms DSymVerif.C13.stabilizer_relators_hold
+#print axioms DSymVerif.C13.stabilizer_total
+#print axioms DSymVerif.C13.intersection_total
+#print axioms DSymVerif.C13.core_total
